@@ -59,7 +59,7 @@ func makeSelectConditions(tokens []token) ([]selectCondition, error) {
 		agg := a[0] // Aggregation, e.g. 'sum'
 
 		b := strings.Split(a[1], ")")
-		if len(b) != 2 {
+		if len(b) != 2 || b[1] != "" {
 			return sc, errors.New(invalidQuery + "Can't parse 'select' field name " +
 				"from aggregation: " + token.str)
 		}
